@@ -3,7 +3,7 @@ from engine.driver import poly as P
 from engine.driver.core import Ob, eq, eqs
 from engine.driver.encode import Constraint
 from spec import catalogue as cat
-from spec.treeutil import cleared, is_coord, subst_affine
+from spec.treeutil import cleared, is_coord, subst_affine, tier_caps, cap_sets
 
 ID = "C02"
 HARNESS = "C02_dynamics.cpp"
@@ -21,8 +21,8 @@ EXPLANATION = ("calcAccelerationIgnoringConstraints, calcResidualForceIgnoringCo
                "runs those operators on the symbolic udot, and A_GB from realize is compared with A_GB returned by the operator.")
 BOUNDS = ("tree catalogue (spec/catalogue.py): every built-in mobilizer forward and reversed as a single body, quaternion and Euler mode, "
           "2- and 3-body chains/branches (up to 5 bodies thorough), general/translation-only frames; u, f, F, a free (all reals); "
-          "k free coordinates at a time (k=1 quick, 2 thorough; 3 quick / 10 thorough choices per base point), the other coordinates and all "
-          "mass/frame parameters pinned at exact rational base points (2 quick / 6 thorough) chosen from VERIF_SEED; when the polynomials "
+          "k free coordinates at a time (k=1 quick, 2 thorough; 3 quick / 6 thorough choices per base point), the other coordinates and all "
+          "mass/frame parameters pinned at exact rational base points (2 quick / 4 thorough) chosen from VERIF_SEED; when the polynomials "
           "exceed the encoder's term limit with a free coordinate the free set falls back to u,f,F,a only (counted in the evidence under "
           "extra.free_sets_reduced_to_linear_inputs_by_size_limit); hinge-inertia inverses D^-1 and quaternion norms assumed non-zero "
           "(division side conditions); for 6-dof mobilizers (Free, FreeLine, Bushing) D is inverted by the modelled LAPACK LU whose pivot "
@@ -39,14 +39,14 @@ def instances(tier, seed):
         out.append(dict(name=i["name"], args=i["args"] + ["0"]))
         # same tree, all coordinates pinned: the library itself composes the operators (harness level), body accelerations compared
         out.append(dict(name=i["name"] + "|composed", args=i["args"] + ["1"], composed=True))
-    return out
+    return tier_caps(out, tier)
 
 
 def free_sets(inst, tr, tier, rng):
     fs = list(cat.coordinate_free_sets(inst, tr, tier, rng, always=("u", "f_", "F", "a_")))
     if inst.get("composed"):
         return [[n for n in fs[0] if not is_coord(n)]]
-    return fs
+    return cap_sets(fs, tier)
 
 
 def obligations(enc, inst, tr):
